@@ -67,12 +67,15 @@ CUSTOM = ["sparse", "block", "ones", "single", "two-far"]
 ELEMS = ["R", "C", "L", "Q", "W"]
 
 # frozen tolerances (calibration: see the report in evidence.coverage.worst_observed)
-TOL_CP = 1e-3  # observed <= 3e-5 (floor: lmfit termination on the quartic offset objective)
+TOL_CP = 1e-2  # total deviation; floor = termination of lmfit's offset fit, measured <= 4.1e-6*|ln|Z(f_max)|| <= 1.6e-4
+TOL_CP_SHAPE = 1e-6  # spread of ln(|Z_fit|/|Z|) over the points (the part that does not depend on the offset fit)
 TOL_LADDER = 0.08  # observed <= 0.045; mutants >= 0.2
-TOL_SCALE_CP = 1e-3  # two independent offset fits, each within the cp floor
-TOL_SCALE_LADDER = 1e-4
-TOL_ZERO = 1e-9  # zero-weight perturbation: identical residual vector, observed 0.0
-TOL_SMOOTH = 1e-9  # radians; observed <= 2e-12
+TOL_SCALE_CP = 1e-2  # two independent offset fits, each within the cp floor
+TOL_SCALE_LADDER = 1e-3
+TOL_REL_SHAPE = 1e-6  # relations: spread of ln(|Z_fit'|/|Z_fit|) (same phase data -> same shape)
+TOL_ZERO = 1e-9  # zero-weight perturbation: identical residual vector, observed <= 2e-16
+TOL_SMOOTH = 1e-9  # radians; none/savgol/whithend/modsinc observed <= 2e-12
+TOL_SMOOTH_LOWESS = 1e-6  # radians; statsmodels' robustness iterations on noise-free data, regular grids: observed <= 5e-11
 EPS_WIN = 1e-9  # margin around the window edges
 
 
@@ -200,6 +203,8 @@ def gen_cp(rng, j):
     elem = ELEMS[(j // 40 + j) % 5] if rng.random() < 0.7 else str(rng.choice(ELEMS))
     model = _cp_model(rng, elem)
     kind = str(rng.choice(["regular", "jitter", "random"], p=[0.5, 0.25, 0.25]))
+    if sm == "lowess":
+        kind = "regular"  # see the module docstring (latitude)
     span = float(rng.uniform(2, 9))
     lo = float(rng.uniform(-4, 7.5 - span))
     ppd = float(rng.uniform(3, 20))
@@ -227,11 +232,11 @@ def gen_ladder(rng, j, tier):
     sm, ip, adm = SMOOTHERS[cell % 5], INTERPS[(cell // 5) % 4], bool(cell // 20)
     K = int(rng.integers(1, 5))
     if tier == "quick":
-        ppd = int(rng.integers(5, 13))
-        span = float(rng.uniform(4, 6))
+        ppd = int(rng.integers(5, 11))
+        span = float(rng.uniform(4, 5))
     else:
-        ppd = int(rng.integers(5, 21))
-        span = float(rng.uniform(4, 7))
+        ppd = int(rng.integers(5, 17))
+        span = float(rng.uniform(4, 6))
     lo = float(rng.uniform(-3, 6.5 - span))
     n = int(round(span * ppd)) + 1
     lf = lo + np.arange(n) / ppd
@@ -313,6 +318,10 @@ def check_weights(log_f, window, center, width, w):
     return out
 
 
+def smooth_tol(sm):
+    return TOL_SMOOTH_LOWESS if sm == "lowess" else TOL_SMOOTH
+
+
 def setup_shard():
     if _HOOKS["installed"]:
         return
@@ -332,7 +341,7 @@ def setup_shard():
                 if snap.size and np.ptp(snap) <= 1e-13:
                     monitors.count("hook:_smooth_phase:constant-input")
                     o = np.asarray(out, dtype=float)
-                    if o.shape != snap.shape or not np.all(np.abs(o - snap) <= TOL_SMOOTH):
+                    if o.shape != snap.shape or not np.all(np.abs(o - snap) <= smooth_tol(smoothing)):
                         monitors.record("smooth-constant", f"{smoothing}(num_points={num_points}, order={polynomial_order}) changed a constant "
                                         f"phase sequence of length {snap.size} (value {snap[0]!r}) inside perform_zhit", {"smoother": smoothing})
             except Exception as e:  # the hook must never break the run
@@ -479,6 +488,13 @@ def run_sub(sub):
         mx(f"cp:elem:{sub['model']['elem']}", worst)
         mx("cp:residuals-attr", float(np.max(np.abs(res))))
         meas["dev"] = worst
+        lr = np.log(np.abs(Zf0) / np.abs(Zt))
+        shape = float(np.max(lr) - np.min(lr))
+        mx(f"cp-shape:{opt['smoothing']}/{opt['interpolation']}", shape)
+        meas["shape"] = shape
+        if not shape <= TOL_CP_SHAPE:
+            bad(f"C11/cp-shape:{opt['smoothing']}:{opt['interpolation']}:{rep}",
+                f"constant-phase spectrum {sub['model']}: ln(|Z_fit|/|Z|) varies by {shape:.3e} over the spectrum (tolerance {TOL_CP_SHAPE})")
         if not worst <= TOL_CP:
             i = int(np.argmax(dev))
             bad(f"C11/cp-modulus:{opt['smoothing']}:{opt['interpolation']}:{rep}",
@@ -512,11 +528,15 @@ def run_sub(sub):
         r1 = call(Zin * a, "scaled")
         if r1 is not None:
             evals += 1
-            d = float(np.max(np.abs(np.asarray(r1.impedances) / (a * Zf0) - 1)))
+            q = np.abs(np.asarray(r1.impedances)) / np.abs(a * Zf0)
+            d = float(np.max(np.abs(q - 1)))
+            sp = float(np.ptp(np.log(q)))
             mx(f"scale:{clause}", d)
+            mx("scale:shape", sp)
             meas["scale"] = d
-            if not d <= (TOL_SCALE_CP if clause == "cp" else TOL_SCALE_LADDER):
-                bad(f"C11/scaling:{clause}", f"Z*{a:.6g} does not scale the reconstruction by the same constant: max rel. deviation {d:.3e}")
+            meas["scale_shape"] = sp
+            if not (d <= (TOL_SCALE_CP if clause == "cp" else TOL_SCALE_LADDER) and sp <= TOL_REL_SHAPE):
+                bad(f"C11/scaling:{clause}", f"Z*{a:.6g} does not scale the reconstruction by the same constant: max rel. deviation {d:.3e}, spread of the log ratio {sp:.3e}")
         if np.any(zset) and np.any(wset):
             # -- zero-weight points: arbitrary modulus factors, phase kept
             fac = np.ones(len(f))
@@ -525,7 +545,7 @@ def run_sub(sub):
             r2 = call(Zin * fac, "zero-weight-perturbed")
             if r2 is not None:
                 evals += 1
-                d = float(np.max(np.abs(np.asarray(r2.impedances) / Zf0 - 1)))
+                d = float(np.max(np.abs(np.abs(np.asarray(r2.impedances)) / np.abs(Zf0) - 1)))
                 mx("weights:zero-weight-perturbation", d)
                 st(f"weights:zero-perturb:{win['kind']}")
                 meas["zero"] = d
@@ -539,11 +559,15 @@ def run_sub(sub):
             r3 = call(Zin * fac, "weighted-points-scaled")
             if r3 is not None:
                 evals += 1
-                d = float(np.max(np.abs(np.asarray(r3.impedances) / (b * Zf0) - 1)))
+                q = np.abs(np.asarray(r3.impedances)) / np.abs(b * Zf0)
+                d = float(np.max(np.abs(q - 1)))
+                sp = float(np.ptp(np.log(q)))
                 mx(f"weights:weighted-scaling:{clause}", d)
+                mx("weights:weighted-scaling:shape", sp)
                 st(f"weights:weighted-scale:{win['kind']}")
                 meas["wscale"] = d
-                if not d <= (TOL_SCALE_CP if clause == "cp" else TOL_SCALE_LADDER):
+                meas["wscale_shape"] = sp
+                if not (d <= (TOL_SCALE_CP if clause == "cp" else TOL_SCALE_LADDER) and sp <= TOL_REL_SHAPE):
                     bad(f"C11/offset-not-determined-by-weighted-points:{win['kind']}",
                         f"multiplying |Z| by {b} on the {int(wset.sum())} points inside the window should multiply the whole reconstruction by {b}: deviation {d:.3e}")
     m = sub["model"]
@@ -608,17 +632,19 @@ def run_smooth(case):
         core = in_core(sm, np_, order)
         for n in lengths:
             lnw_reg = np.log(2 * np.pi * 10.0 ** np.linspace(rng.uniform(3, 7), rng.uniform(-4, 0), n))
+            lnw_irr = np.sort(rng.uniform(-8, 18, n))[::-1].copy()
             seqs = [("constant", np.full(n, rng.uniform(-np.pi, np.pi)), lnw_reg),
                     ("constant", np.full(n, float(rng.choice([0.0, -np.pi / 2, np.pi / 2, -np.pi / 4]))), lnw_reg),
-                    ("constant", np.full(n, rng.uniform(-np.pi, np.pi)), np.sort(rng.uniform(-8, 18, n))[::-1].copy())]
+                    ("constant", np.full(n, rng.uniform(-np.pi, np.pi)), lnw_reg if sm == "lowess" else lnw_irr)]
             for _ in range(2):
                 a, b = rng.uniform(-np.pi, np.pi, 2)
                 seqs.append(("linear", np.linspace(a, b, n), lnw_reg))
             a = rng.uniform(-1.5, 1.5)
             seqs.append(("linear", a + 1e-3 * rng.uniform(-1, 1) * np.arange(n), lnw_reg))
-            if sm == "lowess":  # the only smoother that looks at ln(omega): linear in ln(omega) on an irregular grid
-                x = np.sort(rng.uniform(-8, 18, n))[::-1].copy()
-                seqs.append(("linear", -1.0 + 0.1 * (x - x[-1]), x))
+            if sm == "lowess":  # information only: irregular grid (robustness weights are driven by rounding noise there)
+                status, val = smooth_one(sm, np_, order, 3, lnw_irr, np.full(n, 0.5))
+                if status == "ok" and val == val and val != float("inf"):
+                    maxobs["smooth:lowess-irregular-grid(info)"] = max(maxobs.get("smooth:lowess-irregular-grid(info)", 0.0), val)
             for kind, seq, lnw in seqs:
                 it = int(rng.integers(1, 6))
                 status, val = smooth_one(sm, np_, order, it, lnw, seq)
@@ -639,9 +665,9 @@ def run_smooth(case):
                 name = f"smooth:{kind}:{cls}"
                 if val == val and val != float("inf"):
                     maxobs[name] = max(maxobs.get(name, 0.0), val)
-                if not val <= TOL_SMOOTH:
+                if not val <= smooth_tol(sm):
                     viol.append({"key": f"C11/smooth-{kind}:{cls}",
-                                 "msg": f"{sm}(num_points={np_}, order={order}) changed a {kind} sequence of length {n} by up to {val:.3e} rad (tolerance {TOL_SMOOTH})",
+                                 "msg": f"{sm}(num_points={np_}, order={order}) changed a {kind} sequence of length {n} by up to {val:.3e} rad (tolerance {smooth_tol(sm)})",
                                  "witness": wit})
     # keep one witness per key from this case
     seen, out = set(), []
@@ -773,7 +799,7 @@ def run_case(case):
         if status == "raised":
             if in_core(case["smoother"], case["num_points"], case["order"]):
                 viol.append({"key": f"C11/smoother-raised:{case['smoother']}:{type(val).__name__}", "msg": monitors.tb_tail(val), "witness": {}})
-        elif not val <= TOL_SMOOTH:
+        elif not val <= smooth_tol(case["smoother"]):
             cls = linear_class(case["smoother"], case["num_points"], case["order"]) if case["seqkind"] == "linear" else case["smoother"]
             viol.append({"key": f"C11/smooth-{case['seqkind']}:{cls}", "msg": f"deviation {val:.3e} rad", "witness": {}})
         return {"evals": 1, "keys": ["smooth1"], "viol": viol}
